@@ -249,13 +249,21 @@ def shard_log(arg) -> E.Tally:
                 rssi = ("045", "000", "---", "...")[k % 4]
                 k += 1
                 t.n += 1
-                try:
-                    p = Packet.from_port(stamp, f"{rssi} {fr}{annot}")
-                    live.append(p)
-                except exc.PacketInvalid:
-                    pass
-                except AssertionError:
-                    pass  # C01's finding, not a log matter
+                # a recorded session also holds repeats (RF devices send frames two or three times; a remote gateway's millisecond
+                # stamps can coincide): the very same line twice in a row, and another frame under the same timestamp
+                lines = [f"{rssi} {fr}{annot}"]
+                if k % 5 == 0:
+                    lines.append(lines[0])
+                if k % 7 == 0:
+                    lines.append(f"{rssi} {mine[(k * 3) % len(mine)]}")
+                for ln in lines:
+                    try:
+                        p = Packet.from_port(stamp, ln)
+                        live.append(p)
+                    except exc.PacketInvalid:
+                        pass
+                    except AssertionError:
+                        pass  # C01's finding, not a log matter
         for h in list(PK.PKT_LOGGER.handlers):
             h.flush()
             h.close()
